@@ -1147,11 +1147,108 @@ def life_ops(line):
     return line.split(" ", 4)[4] if len(line.split(" ", 4)) > 4 else ""
 
 
+def parse_life_ops(line):
+    """the operations of a life case line: list of (op, args); send items are dicts"""
+    toks = line.split(" ")
+    t = TokS(toks[3:])
+    def step():
+        x = t.next()
+        return x + t.next() if x == "b" else x
+    def item():
+        k = t.next()
+        if k == "req":
+            kind = t.next(); msgid = t.int(); steps = t.lst(step)
+            return dict(kind=kind, msgid=msgid, steps=steps)
+        return dict(kind=k, msgid=None, steps=[])
+    ops = []
+    n = t.int()
+    for _ in range(n):
+        op = t.next()
+        if op in ("send", "sendclose"):
+            c = t.int(); items = t.lst(item)
+            ops.append((op, c, items))
+        elif op == "run":
+            ops.append((op, t.next(), t.next()))
+        elif op in ("stop", "connect", "accepterr"):
+            ops.append((op,))
+        elif op == "stall":
+            ops.append((op, t.int(), t.next()))
+        else:
+            ops.append((op, t.next()))
+    return ops
+
+
+def rx_bounds(ops, upto, nconn):
+    """per connection: (requests in arrival order, clean?) after the first `upto` operations"""
+    reqs = {c: [] for c in range(nconn)}
+    dirty = {c: False for c in range(nconn)}
+    ci = 0
+    stopped = False
+    for op in ops[:upto]:
+        if op[0] in ("connect", "accepterr"):
+            ci += 1
+        elif op[0] in ("send", "sendclose"):
+            for it in op[2]:
+                if it["kind"] in ("normal", "starttls", "unbind"):
+                    reqs.setdefault(op[1], []).append(it)
+                    if "W" in it["steps"] or "p" in it["steps"]:
+                        dirty[op[1]] = True
+                else:
+                    dirty[op[1]] = True
+            if op[0] == "sendclose":
+                dirty[op[1]] = True
+        elif op[0] in ("stall", "close", "reset"):
+            dirty[int(op[1])] = True
+        elif op[0] == "stop":
+            stopped = True
+    return reqs, dirty, stopped
+
+
 def life_spec(pid, line, snaps):
     """Property-specific predicate on the snapshots observed on the real server.
     Returns (key, why) or None."""
     P = [parse_snapshot(x) for x in snaps if not x.startswith(("OPFAILED", "DISABLED", "ENABLED"))]
     ops_text = life_ops(line)
+    try:
+        OPS = parse_life_ops(line)
+    except Exception:
+        OPS = []
+    cfgs = line.split(" ")[2]
+    # responses: a client receives one frame per handler write, and nothing else (no answer to an
+    # Unbind, no frame of another connection); a request with a plain script on an undisturbed
+    # connection is served.  Judged before any Stop (Stop adds its notice of disconnection).
+    if OPS and pid in ("C06", "C07", "C08", "C09", "C10", "C13"):
+        for k, p in enumerate(P):
+            reqs, dirty, stopped = rx_bounds(OPS, k + 1, len(p["conns"]))
+            if stopped:
+                break
+            for ci, c in enumerate(p["conns"]):
+                if dirty.get(ci) or "rx" not in c:
+                    continue
+                ended = set(c["ended"]); started = set(x.rstrip("ntu") for x in c["started"])
+                lo = hi = 0
+                unserved = None
+                after_unbind = False
+                for rid, it in enumerate(reqs.get(ci, []), start=1):
+                    w = sum(1 for st in it["steps"] if st == "w")
+                    if after_unbind:
+                        continue
+                    if str(rid) in ended:
+                        lo += w; hi += w
+                    elif str(rid) in started or it["kind"] == "unbind":
+                        hi += w
+                    if it["kind"] == "unbind":
+                        after_unbind = True
+                        continue
+                    if str(rid) not in ended and not any(st.startswith("b") or st == "hs" for st in it["steps"]) and k == len(P) - 1:
+                        unserved = rid
+                rx = int(c["rx"])
+                if rx > hi:
+                    return ("unexpected-frame", "connection %d received %d frames although its handlers wrote at most %d (operation %d): gldap answered something no handler wrote" % (ci, rx, hi, k))
+                if k == len(P) - 1 and rx < lo and "hs" not in ops_text:
+                    return ("lost-frame", "connection %d received %d frames although handlers that returned wrote %d (operation %d)" % (ci, rx, lo, k))
+                if unserved is not None and pid == "C07":
+                    return ("bystander-unserved", "request %d on undisturbed connection %d was not served (operation %d)" % (unserved, ci, k))
     for k, p in enumerate(P):
         if pid == "C07" and p.get("alive") == "0":
             return ("process-died", "the server process died at operation %d" % k)
@@ -1172,6 +1269,12 @@ def life_spec(pid, line, snaps):
                     return ("onclose-before-handlers", "OnClose for connection %d while handlers %s have not returned" % (ci, running))
                 if c.get("closed") == "1" and running and not panics_in(ops_text):
                     return ("closed-before-handlers", "connection %d closed while handlers %s have not returned" % (ci, running))
+        if pid == "C08":
+            st = p.get("stops", "0/0").split("/")
+            if st[1] != "0" and st[0] == st[1] and p.get("run") in ("ok", "err") and "onclose=0" not in cfgs:
+                for ci, c in enumerate(p["conns"]):
+                    if c.get("onclose") == "0":
+                        return ("onclose-missing", "Stop and Run have returned and OnClose was never called for connection %d" % ci)
         if pid == "C09":
             ids = [c.get("id") for c in p["conns"]]
             if len(set(ids)) != len(ids) or any(int(i) <= 0 for i in ids):
@@ -1196,14 +1299,29 @@ def life_spec(pid, line, snaps):
         for p in P:
             for ci, c in enumerate(p["conns"]):
                 rids = [int(x.rstrip("ntu")) for x in c["started"]]
-                if rids != list(range(1, len(rids) + 1)) and sorted(rids) != rids:
-                    return ("numbering", "request ids on connection %d are not 1,2,3,...: %r" % (ci, rids))
+                if (rids != list(range(1, len(rids) + 1)) and sorted(rids) != rids) or len(set(rids)) != len(rids):
+                    return ("numbering", "request ids on connection %d are not 1,2,3,... once each: %r" % (ci, rids))
     if pid == "C10":
         for p in P:
             for ci, c in enumerate(p["conns"]):
                 us = [x for x in c["started"] if x.endswith("u")]
                 if len(us) > 1:
                     return ("unbind-handler-twice", "unbind handler ran %d times" % len(us))
+                if us:
+                    later = [x for x in c["started"] if int(x.rstrip("ntu")) > int(us[0].rstrip("u"))]
+                    if later:
+                        return ("served-after-unbind", "connection %d: requests %r were handed to a handler after the Unbind (request %s)" % (ci, later, us[0]))
+        if OPS:
+            # without an unbind route nothing at all is dispatched for the Unbind or after it
+            for p in P:
+                reqs, dirty, stopped = rx_bounds(OPS, len(OPS), len(p["conns"]))
+                for ci, c in enumerate(p["conns"]):
+                    rs = reqs.get(ci, [])
+                    ub = [i for i, it in enumerate(rs, start=1) if it["kind"] == "unbind"]
+                    if ub:
+                        bad = [x for x in c["started"] if int(x.rstrip("ntu")) > ub[0] or (int(x.rstrip("ntu")) == ub[0] and "unbind=0" in cfgs)]
+                        if bad:
+                            return ("served-after-unbind", "connection %d: %r dispatched although the Unbind was request %d%s" % (ci, bad, ub[0], " and no unbind route is registered" if "unbind=0" in cfgs else ""))
     return None
 
 
@@ -1336,7 +1454,7 @@ def make_life_check(pid, gens):
         res.rule = LIFE_RULES[pid] + "; every scenario is predicted by the LTS (Sys.v, canonical scheduler to quiescence) and forced on a real server in a worker process; after each operation the observed snapshot (ready, Run/Stop returns, port, per connection: id, handlers started/ended, closed, OnClose count) must become and stay the predicted one; one evaluation = one scenario"
     CHECKS[pid] = fn
 
-for _pid, _g in [("C06", ["c06"]), ("C07", ["c07", "c07accept"]), ("C08", ["c08"]), ("C09", ["c09"]), ("C10", ["c10"]), ("C11", ["c11"]), ("C12", ["c12"]), ("C13", ["c13"])]:
+for _pid, _g in [("C06", ["c06"]), ("C07", ["c07", "c07accept", "c07stall"]), ("C08", ["c08", "c08edges"]), ("C09", ["c09"]), ("C10", ["c10"]), ("C11", ["c11"]), ("C12", ["c12"]), ("C13", ["c13"])]:
     make_life_check(_pid, _g)
 
 
